@@ -45,6 +45,9 @@ theorem P.bind_def' {α β : Type} (p : P F α) (f : α → P F β) (cur : Cur) 
 theorem P.pure_def {α : Type} (a : α) (cur : Cur) (st : St F) :
     (pure a : P F α) cur st = .ok (a, cur, st) := rfl
 
+theorem pure_apply {α : Type} (a : α) (cur : Cur) (st : St F) :
+    (Pure.pure a : P F α) cur st = .ok (a, cur, st) := rfl
+
 theorem P.ofR_ok {α : Type} (a : α) (cur : Cur) (st : St F) :
     (P.ofR (.ok a) : P F α) cur st = .ok (a, cur, st) := rfl
 
@@ -156,12 +159,12 @@ theorem next_node (tag : Str) (b : Body) (rest : Cur) (st : St F) :
 @[simp] theorem textView_tb (s : Str) : textView (tb s).2 = .ok s := by
   unfold tb; split
   · subst_vars; rfl
-  · rfl
+  · simp [textView, concatText]
 
 @[simp] theorem textView_ntb (n s : Str) : textView (ntb n s).2 = .ok s := by
   unfold ntb; split
   · subst_vars; rfl
-  · rfl
+  · simp [textView, concatText]
 
 theorem nextText_body (tag : Str) (b : Body) (s : Str) (hb : textView b.2 = .ok s) (rest : Cur)
     (st : St F) : nextText (mkNode tag b :: rest) st = .ok (s, rest, st) := by
